@@ -1024,7 +1024,7 @@ class Variable(CanBehaveLikeAVariable[T]):
             # as an operand (e.g. of a comparison) a falsy value like 0 is a value like any other.
             is_false = False
             if (
-                isinstance(self._parent_, LogicalBinaryOperator)
+                isinstance(self._parent_, LogicalOperator)
                 or self is self._conditions_root_
             ):
                 is_false = not bool(sources[self._id_])
